@@ -1,12 +1,15 @@
 """C14 - vxfw layout contract and surface addressing hold for every constraint."""
+import concurrent.futures as cf
 import json
 import os
+import time
 
 import vcheck
 import vselftest
 
-# short-lived JVMs: C1 only and few helper threads cut the CPU of a trace shard to a third
-os.environ.setdefault("JAVA_TOOL_OPTIONS", "-XX:TieredStopAtLevel=1 -XX:ParallelGCThreads=2 -XX:CICompilerCount=2")
+# short-lived JVMs: C1 only and few helper threads cut the CPU of a trace shard to a third (JDK_JAVA_OPTIONS is read by
+# the java launcher; lib/vcheck sets JAVA_TOOL_OPTIONS itself)
+os.environ.setdefault("JDK_JAVA_OPTIONS", "-XX:TieredStopAtLevel=1 -XX:ParallelGCThreads=2 -XX:CICompilerCount=2")
 
 
 def _corrupt_write(evs):
@@ -45,6 +48,27 @@ def _corrupt_paint(evs):
             k = e["tree"]["kids"][0]
             if k["s"]["w"] > 0 and k["s"]["h"] > 0 and 0 < k["x"] < e["tree"]["w"] and 0 <= k["y"] < e["tree"]["h"] and not k["s"].get("kids"):
                 k["x"] -= 1
+                return evs
+    return None
+
+
+def _wide_cell(t):
+    """a visible wide cell of a childless tree, or None"""
+    if t.get("kids"):
+        return None
+    for cell in t.get("cells") or []:
+        if len(cell) == 4 and cell[3] == 2:
+            return cell
+    return None
+
+
+def _corrupt_wide(evs):
+    """a wide grapheme the driver wrote recorded as one column wide"""
+    for e in evs:
+        if e.get("ev") == "paint":
+            cell = _wide_cell(e["tree"])
+            if cell:
+                cell[3] = 1
                 return evs
     return None
 
@@ -90,30 +114,62 @@ def sig_of(rej, scn):
         return "C14:paint:panic:%s:%s" % (d.get("pmsg", ""), tag)
     bad = d.get("bad") or []
     fields = "+".join(sorted(bad[3])) if len(bad) == 4 else ""
+    if fields == "partly-covered-wide-glyph-shown":
+        return "C14:paint:%s:%s" % (why, fields)      # one defect class whatever the surface sizes
     return "C14:paint:%s:%s:%s" % (why, fields, tag)
 
 
 def main(c):
+    t0, phase = time.time(), {}
+
+    def lap(name):
+        nonlocal t0
+        phase[name] = round(time.time() - t0, 1)
+        t0 = time.time()
     drv = c.build()
+    lap("build")
     specs = c.stage_specs("term", "vxfw")
     c.assumptions += [
         "trusted base: harness lexer/termcmd and the RefTerm oracle (checked by C01), TLC, encoding/json",
         "Buffer is row-major (Index = r*W + c): public layout used by every widget; confirmed end to end by the paint scenarios",
-        "paint scenarios use narrow ASCII cells and palette colours only (wide glyphs at clip edges belong to C11/C01)",
+        "paint scenarios use ASCII and two-column CJK graphemes (explicit width or left to the library) and palette colours only; "
+        "a frame in which a wide grapheme is cut by the edge of its own surface, of an ancestor or of the screen, or in which a "
+        "surface wrote a cell of its own under its own wide grapheme, is not judged (the property does not say what shows there; "
+        "what a window does with a glyph that does not fit is C11's); the generators keep wide graphemes away from those places",
+        "a wide grapheme of which one column lies under a surface painted later cannot be shown: its other column must show a "
+        "narrow cell (any), the later surface's cells are demanded exactly",
         "overlapping siblings always get distinct z-indices (the property orders painting by z-index only)",
         "a child that does not fit its centring parent is outside the centring clause",
     ]
+    models = None
     if not c.replay:
-        ok, _ = c.model_check(specs, "MC_Surface.tla", "MC_Surface.cfg" if c.tier == "quick" else "MC_Surface_deep.cfg")
+        # the exhaustive model (all its states are initial states, which TLC computes on one thread) and its two negative
+        # controls run beside the driver and the trace validation
+        ex = cf.ThreadPoolExecutor(max_workers=3)
+        models = [ex.submit(c.model_check, specs, "MC_Surface.tla", "MC_Surface.cfg" if c.tier == "quick" else "MC_Surface_deep.cfg", 2),
+                  ex.submit(c.model_check, specs, "MC_Surface.tla", "MC_Surface_u16.cfg", 2, 3000, ("-noGenerateSpecTE",), True),
+                  ex.submit(c.model_check, specs, "MC_Surface.tla", "MC_Surface_wide.cfg", 2, 3000, ("-noGenerateSpecTE",), True)]
+    td = c.drive(drv, "c14", replay=c.replay)
+    lap("driver")
+    rejects, _ = c.validate_traces(specs, "Surface_Trace.tla", "Surface_Trace.cfg", td)
+    lap("trace_validation")
+    if models:
+        (ok, _), (ok16, _), (okw, _) = [f.result() for f in models]
+        ex.shutdown()
         if not ok:
             raise vcheck.Inconclusive("MC_Surface: the exhaustive model did not complete without error (spec-level problem, not a verdict)")
-        ok16, _ = c.model_check(specs, "MC_Surface.tla", "MC_Surface_u16.cfg", expect_violation=True)
-        c.cov["models"][-1]["note"] = ("negative control: the 16-bit / row<=height transcription of the unrepaired code "
-                                       "must be refuted by the oracle (refuted=%s)" % (not ok16))
+        for m in c.cov["models"]:
+            if m["cfg"] == "MC_Surface_u16.cfg":
+                m["note"] = ("negative control: the 16-bit / row<=height transcription of the unrepaired code "
+                             "must be refuted by the oracle (refuted=%s)" % (not ok16))
+            if m["cfg"] == "MC_Surface_wide.cfg":
+                m["note"] = ("negative control: a painter that leaves a wide cell in the screen buffer when a later surface "
+                             "is painted over its right half must be refuted by the oracle (refuted=%s)" % (not okw))
         if ok16:
             c.notes.append("negative control MC_Surface_u16 was NOT refuted: the exhaustive model lost its teeth")
-    td = c.drive(drv, "c14", replay=c.replay)
-    rejects, _ = c.validate_traces(specs, "Surface_Trace.tla", "Surface_Trace.cfg", td)
+        if okw:
+            c.notes.append("negative control MC_Surface_wide was NOT refuted: the exhaustive model lost its teeth")
+    lap("models_after_validation")
     idx = c.load_index(td)
     c.count_distinct(idx, nontrivial=lambda s: s["nev"] >= 2)
     kinds = {}
@@ -132,12 +188,18 @@ def main(c):
     if not c.replay:
         c.cov["binding_selftest"] = vselftest.run(
             c, specs, "Surface_Trace.tla", "Surface_Trace.cfg", td, {r["scn"] for r in rejects},
-            [("write-index", _corrupt_write), ("draw-size", _corrupt_size), ("draw-centre", _corrupt_centre), ("paint-offset", _corrupt_paint)])
+            [("write-index", _corrupt_write), ("draw-size", _corrupt_size), ("draw-centre", _corrupt_centre), ("paint-offset", _corrupt_paint),
+             ("paint-wide", _corrupt_wide)])
+        lap("binding_selftest")
     c.confirm(drv, "c14", specs, "Surface_Trace.tla", "Surface_Trace.cfg", cands, sig_of)
+    lap("confirm")
+    c.cov["phase_seconds"] = phase
+    vcheck.log("C14 phases (s): %s" % phase)
     return c.finish(
         rule="surf: every size in {0,1,2,3,255,256,257,300}^2 (+ sizes around 2^16 cells, random sizes) x boundary coordinates "
              "{0,1,n-2,n-1,n,n+1,65535}^2, each write checked against Surface!WriteEffect; draw: every built-in widget x content "
              "class x max in {0,1,2,3,10,65535}^2 (+min=max, contents of max/max+1/max+7 lines, >65535 cells, one level of "
              "nesting, list state sequences), checked against LayoutRel; paint: surface trees rendered by the real App.Run "
-             "on a fake console, the console bytes stepped through RefTerm and compared with Surface!Screen(tree); "
+             "on a fake console (bounded-exhaustive two-level trees, every overlap of two children holding narrow and wide graphemes, "
+             "random trees), the console bytes stepped through RefTerm and compared with Surface!Want(tree); "
              "distinct = distinct scenario descriptor")
